@@ -225,34 +225,63 @@ def check_heap(rep, repo: Repo, pre: str = "") -> None:
             exp = {prm: 2, 1: want[1]}
             rep.ev(pre + "H4", rets[0], lin_eq(lin(t), exp), f"{name} must be 2*i + {want[1]}")
 
-    # ---- H1 mirror -----------------------------------------------------------
+    # ---- policy-specialised walks of the two sift routines -----------------------------------
+    # `self.policy` is replaced by the constant "min" / "max": wherever the dispatch is written (outer if,
+    # comparator helper, conditional expression) each walk sees one policy only.
+    helper = lambda f: f.cls == "Heap" and f.name.startswith("_") and not f.name.startswith("__")
+    SP: Dict[Tuple[str, str], Walker] = {}
     for name in ("go_up", "go_down"):
-        fi = W[name].entry
-        pi = _policy_if(fi)
-        if pi is None:
-            raise AnalysisError(f"Heap.{name}: no `if self.policy == ...` dispatch found")
-        node, which = pi
-        a = ast.Module(body=node.body, type_ignores=[])
-        b = ast.Module(body=node.orelse, type_ignores=[])
-        same = ast.dump(a) == ast.dump(_flip_cost_comparisons(b))
-        rep.fn(pre + "H1", fi, f"min/max branches of {name} mirror each other", same,
-               "the two policy branches differ by more than the direction of the cost comparisons",
-               line=node.lineno)
+        for pol in ("min", "max"):
+            SP[(name, pol)] = Walker(repo, repo.need_method("Heap", name), self_class="Heap", inline=helper,
+                                     subst={POLICY: ("const", pol)})
+
+    # ---- H1 mirror -----------------------------------------------------------
+    def mirror_sig(w: Walker, pol: str):
+        from .schema import rewrite
+
+        def f(t):
+            c = _cost_cmp(t)
+            if c is not None:
+                lo, hi, strict = c
+                a, b = (lo, hi) if pol == "min" else (hi, lo)
+                return ("call", ("free", "better" if strict else "better_or_equal"), (rewrite(a, f), rewrite(b, f)), ())
+            if t[0] == "old":
+                return rewrite(t[1], f)
+            if t[0] == "phi":
+                return ("phi", 0, t[2])
+            return None
+
+        out = []
+        for e in w.events:
+            if e.kind in ("bind",):
+                continue
+            out.append((e.kind, e.name if e.kind == "call" else e.aug,
+                        show(rewrite(e.target, f)) if e.target is not None else None,
+                        show(rewrite(e.value, f)) if e.value is not None and e.kind == "store" else None,
+                        tuple(show(rewrite(a, f)) for a in e.args),
+                        tuple(show(rewrite(g, f)) for g in facts(e.guards))))
+        for li in w.loops.values():
+            if li.cond is not None:
+                out.append(("loop", show(rewrite(li.cond, f))))
+        return out
+
+    for name in ("go_up", "go_down"):
+        a, b = mirror_sig(SP[(name, "min")], "min"), mirror_sig(SP[(name, "max")], "max")
+        rep.fn(pre + "H1", SP[(name, "min")].entry, f"min and max behaviour of {name} mirror each other", a == b,
+               "the two policies differ by more than the direction of the cost comparisons")
 
     # ---- H3 go_up -------------------------------------------------------------
-    w = W["go_up"]
-    loops = [li for li in w.loops.values() if li.kind == "while"]
-    if not loops:
-        raise AnalysisError("Heap.go_up: no sift loop found")
-    seen_pol = set()
-    for li in loops:
-        pol = policy_of(li.guards)
-        seen_pol.add(pol)
+    for pol in ("min", "max"):
+        w = SP[("go_up", pol)]
+        loops = [li for li in w.loops.values() if li.kind == "while"]
+        if len(loops) != 1:
+            raise AnalysisError(f"Heap.go_up[{pol}]: expected one sift loop, found {len(loops)}")
+        li = loops[0]
         I = ("phi", li.lid, w.entry.params[1])
         cs = conj(li.cond)
         pos_guard = [c for c in cs if c in (("cmp", "<", ("const", 0), I), ("cmp", "<=", ("const", 1), I))]
         fnode = li.node
-        rep.fn(pre + "H3-up-root", w.entry, "while " + unparse(fnode.test), len(pos_guard) == 1,
+        rep.fn(pre + "H3-up-root", w.entry, "while " + unparse(fnode.test) + f"  [{pol}]", len(pos_guard) == 1,
                "sift-up must stop at the root (i > 0)", line=li.line)
         cc = [x for x in (_cost_cmp(c) for c in cs) if x]
         ok = False
@@ -260,7 +289,6 @@ def check_heap(rep, repo: Repo, pre: str = "") -> None:
         if len(cc) == 1:
             lo, hi, strict = cc[0]
             child, parent = (lo, hi) if pol == "min" else (hi, lo)
-            # parent position term: dad(i) directly or the carried j with j == dad(i) invariant
             dad_call = ("call", ("attr", SELF, "dad"), (I,), ())
             inv = False
             if parent == dad_call:
@@ -278,69 +306,63 @@ def check_heap(rep, repo: Repo, pre: str = "") -> None:
                 detail = f"comparison direction is wrong for policy {pol!r}"
             elif not inv:
                 detail = "the position compared with i is not provably dad(i)"
-            # the walk moves to the parent
             i0, i1 = li.carried.get(w.entry.params[1], (None, None))
             moved = i1 == parent
-            rep.fn(pre + "H3-up-move", w.entry, "i moves to its parent after the swap", moved,
+            rep.fn(pre + "H3-up-move", w.entry, f"i moves to its parent after the swap  [{pol}]", moved,
                    f"i becomes '{show(i1) if i1 else '?'}' instead of the parent position", line=li.line)
-            # swap
             st = [e for e in w.events if e.kind == "store" and li.lid in e.loops and e.target[0] == "idx" and e.target[1] == P]
-            sw = {(e.target[2], strip_old(e.value)) for e in st}
+            sw = {(strip_old(e.target[2]), strip_old(e.value)) for e in st}
             good = sw == {(parent, ("idx", P, I)), (I, ("idx", P, parent))}
-            rep.fn(pre + "H3-up-swap", w.entry, "p[parent] and p[i] are exchanged", good,
+            rep.fn(pre + "H3-up-swap", w.entry, f"p[parent] and p[i] are exchanged  [{pol}]", good,
                    "the sift-up body does not exchange exactly p[parent] and p[i]", line=li.line)
         rep.fn(pre + "H3-up-cmp", w.entry, "while " + unparse(fnode.test) + f"  [{pol}]", ok, detail, line=li.line)
-    if seen_pol != {"min", "max"}:
-        raise AnalysisError(f"Heap.go_up: sift loops found for policies {seen_pol}")
 
     # ---- H3 go_down --------------------------------------------------------------
-    w = W["go_down"]
-    iparam = ("param", w.entry.params[1])
-    left_t = ("call", ("attr", SELF, "left_son"), (iparam,), ())
-    right_t = ("call", ("attr", SELF, "right_son"), (iparam,), ())
+    def sel_leaves(t):
+        t = strip_old(t)
+        if t[0] == "sel":
+            return sel_leaves(t[2]) | sel_leaves(t[3])
+        return {t}
 
-    def is_child(t: Term, which: str) -> bool:
-        if t == (left_t if which == "left" else right_t):
-            return True
-        return lin_eq(lin(t), {iparam: 2, 1: 1 if which == "left" else 2})
-
-    binds = [e for e in w.events if e.kind == "bind" and e.guards and policy_of(e.guards)]
-    by_pol: Dict[str, List[Event]] = {"min": [], "max": []}
-    for e in binds:
-        by_pol[policy_of(e.guards)].append(e)
     for pol in ("min", "max"):
-        evs = by_pol[pol]
-        if len(evs) != 2:
-            raise AnalysisError(f"Heap.go_down[{pol}]: expected two child selections, found {len(evs)}")
-        first, second = evs
-        def sel_leaves(t):
-            t = strip_old(t)
-            if t[0] == "sel":
-                return sel_leaves(t[2]) | sel_leaves(t[3])
-            return {t}
-
-        for which, e, best_before in (("left", first, iparam), ("right", second, None)):
-            # every guard between the policy dispatch and the selection, flattened into conjuncts
-            own = []
-            seen_policy = False
-            for g, polarity in e.guards:
-                if not seen_policy:
-                    if policy_of(((g, polarity),)):
-                        seen_policy = True
-                    continue
-                own.extend(conj(g if polarity else mk_not(g)))
-            cs = own
-            child = strip_old(e.value)
-            last_forms = (LAST, ("old", LAST))
-            okc = is_child(child, which)
+        w = SP[("go_down", pol)]
+        # child selections: binds whose value is left_son(I) / right_son(I) (or 2I+1 / 2I+2) under a cost test
+        cands = []
+        for e in w.events:
+            if e.kind != "bind" or not e.guards:
+                continue
+            v = strip_old(e.value)
+            cur = None
+            which = None
+            if v[0] == "call" and v[1][0] == "attr" and v[1][1] == SELF and v[1][2] in ("left_son", "right_son") and len(v[2]) == 1:
+                cur, which = strip_old(v[2][0]), ("left" if v[1][2] == "left_son" else "right")
+            else:
+                lf = lin(v)
+                if lf is not None and len([k for k in lf if k != 1]) == 1:
+                    atom = [k for k in lf if k != 1][0]
+                    if lf.get(atom) == 2 and lf.get(1) in (1, 2):
+                        cur, which = atom, ("left" if lf.get(1) == 1 else "right")
+            if cur is not None and any(_cost_cmp(c) for c in facts(e.guards)):
+                cands.append((e, v, cur, which))
+        if len(cands) != 2 or {c[3] for c in cands} != {"left", "right"}:
+            raise AnalysisError(f"Heap.go_down[{pol}]: expected one left and one right child selection, found "
+                                f"{[c[3] for c in cands]}")
+        cands.sort(key=lambda c: c[0].seq)
+        first, second = cands
+        I = first[2]
+        ok_same = second[2] == I
+        rep.fn(pre + "H3-down-children", w.entry, f"both children are children of the same position  [{pol}]",
+               ok_same, "left and right child are computed from different positions")
+        for (e, child, cur, which) in (first, second):
+            cs = list(facts(e.guards))
             bound = [c for c in cs if c[0] == "cmp" and (
-                (c[1] == "<=" and c[2] == child and strip_old(c[3]) == LAST)
-                or (c[1] == "<" and c[2] == child and strip_old(c[3]) == ("bin", "+", *sorted([LAST, ("const", 1)], key=repr))))]
+                (c[1] == "<=" and strip_old(c[2]) == child and strip_old(c[3]) == LAST)
+                or (c[1] == "<" and strip_old(c[2]) == child and strip_old(c[3]) == ("bin", "+", *sorted([LAST, ("const", 1)], key=repr))))]
             g_last = e.guards[-1][0]
             src = w.guard_src.get(g_last)
             text = src[1] if src else e.text()
             line = src[0] if src else e.line
-            rep.fn(pre + "H3-down-bound", w.entry, f"{which} child: " + text, okc and len(bound) == 1,
+            rep.fn(pre + "H3-down-bound", w.entry, f"{which} child: " + text + f"  [{pol}]", len(bound) == 1,
                    f"the {which} child must be tested against the last occupied position", line=line)
             cc = [x for x in (_cost_cmp(c) for c in cs) if x]
             ok = False
@@ -349,36 +371,48 @@ def check_heap(rep, repo: Repo, pre: str = "") -> None:
                 lo, hi, strict = cc[0]
                 c_pos, other = (lo, hi) if pol == "min" else (hi, lo)
                 c_pos, other = strip_old(c_pos), strip_old(other)
-                if which == "left":
-                    ok = c_pos == child and other == iparam
+                if e is first[0]:
+                    ok = c_pos == child and other == I
                 else:
-                    # best so far: a selection between the left child and i (whatever shape the tests have)
                     leaves = sel_leaves(other)
-                    ok = c_pos == child and leaves == {strip_old(first.value), iparam} and other[0] == "sel"
-                    if c_pos == child and other == iparam:
-                        detail = ("the right child is compared with i instead of the better of (i, left): "
+                    ok = c_pos == child and leaves == {first[1], I} and other[0] == "sel"
+                    if c_pos == child and other == I:
+                        detail = ("the second child is compared with i instead of the better of (i, first child): "
                                   "the larger/smaller child can be promoted above its sibling")
                 if not ok and c_pos != child and other == child:
                     detail = f"comparison direction is wrong for policy {pol!r}"
             rep.fn(pre + "H3-down-cmp", w.entry, f"{which} child: " + text + f"  [{pol}]", ok, detail, line=line)
-    # swap + recursion on the chosen child
-    jfinal = None
-    for e in w.events:
-        if e.kind == "call" and e.name == "go_down":
-            jfinal = e.args[0] if e.args else None
-            rec = e
-    if jfinal is None:
-        raise AnalysisError("Heap.go_down: no recursive descent found")
-    jfinal = strip_old(jfinal)
-    neq = ("cmp", "!=", *sorted([iparam, jfinal], key=repr))
-    rep.ev(pre + "H3-down-rec", rec, has_guard(rec.guards, neq),
-           "descent must continue at the chosen child only when it differs from i")
-    st = [e for e in w.events if e.kind == "store" and e.target[0] == "idx" and e.target[1] == P]
-    sw = {(strip_old(e.target[2]), strip_old(e.value)) for e in st}
-    good = sw == {(jfinal, ("idx", P, iparam)), (iparam, ("idx", P, jfinal))} and all(
-        has_guard(e.guards, neq) for e in st)
-    rep.fn(pre + "H3-down-swap", w.entry, "p[j] and p[i] are exchanged when j != i", good,
-           "the sift-down does not exchange exactly p[chosen child] and p[i]")
+        # the chosen position J: where the walk continues
+        J = None
+        rec = None
+        for e in w.events:
+            if e.kind == "call" and e.name == "go_down" and e.args:
+                J, rec = strip_old(e.args[0]), e
+        loop_form = None
+        if J is None and I[0] == "phi":
+            li = w.loops.get(I[1])
+            if li is not None and I[2] in li.carried:
+                J = strip_old(li.carried[I[2]][1])
+                loop_form = li
+        if J is None:
+            raise AnalysisError(f"Heap.go_down[{pol}]: neither a recursive descent nor a position-carrying loop found")
+        okJ = J[0] == "sel" and sel_leaves(J) == {first[1], second[1], I}
+        rep.fn(pre + "H3-down-choice", w.entry, f"the walk continues at the better of (i, left, right)  [{pol}]", okJ,
+               f"the position the walk continues at is '{show(J)[:120]}'")
+        neq = ("cmp", "!=", *sorted([I, J], key=repr))
+        st = [e for e in w.events if e.kind == "store" and e.target[0] == "idx" and e.target[1] == P]
+        if rec is not None:
+            rep.ev(pre + "H3-down-rec", rec, has_guard(rec.guards, neq),
+                   "descent must continue at the chosen child only when it differs from i")
+        else:
+            init = loop_form.carried[I[2]][0]
+            rep.fn(pre + "H3-down-rec", w.entry, f"the loop starts at the given position and stops when nothing moves  [{pol}]",
+                   init == ("param", w.entry.params[1]) and all(has_guard(e.guards, neq) for e in st),
+                   "the descent loop must start at i and exchange only while the chosen child differs from i")
+        sw = {(strip_old(e.target[2]), strip_old(e.value)) for e in st}
+        good = sw == {(J, ("idx", P, I)), (I, ("idx", P, J))} and all(has_guard(e.guards, neq) for e in st)
+        rep.fn(pre + "H3-down-swap", w.entry, f"p[j] and p[i] are exchanged when j != i  [{pol}]", good,
+               "the sift-down does not exchange exactly p[chosen child] and p[i]")
 
     # ---- H2 inverse maintenance ----------------------------------------------------
     n_h2 = 0
